@@ -18,7 +18,7 @@ pub(crate) open spec fn synthetic_from_set<'l, Data>(extra: &AdditionalLifecycle
 //@ endregion
 
 impl<'l, Data> EventLoop<'l, Data> {
-//@ slice src/loop_logic.rs / impl EventLoop<'l, Data> / fn dispatch_events :: stmts <<let now = Instant::now();>> .. <<let events = {>> props=C14,C12 name=EventLoop::dispatch_events::before_sleep_and_wait
+//@ slice src/loop_logic.rs / impl EventLoop<'l, Data> / fn dispatch_events :: stmts <<let now = Instant::now();>> .. <<let events =>> props=C14,C12,C02,C11 name=EventLoop::dispatch_events::before_sleep_and_wait
 //@ rw R12 * <<Duration::ZERO>> => <<crate::ext_dur::duration_zero()>>
 //@ rw R11 1 <<for source in &mut *extra_lifecycle_sources.values>> => <<for source in lit: extra_lifecycle_sources.values.iter()>>
 //@ rw R13 1 <<Ok(events) => break events,>> => <<Ok(events) => { return Ok(()); }>>
@@ -89,7 +89,7 @@ fn before_sleep_and_wait(&mut self, extra_cell: &AdditionalLifecycleEventsSet, s
             // C12/C11: the wait is repeated ONLY after an attempt that was interrupted by a signal; any other error ends the
             // dispatch (it is returned, not retried)
             attempt > 0 ==> poll_cell.w_interrupted((attempt - 1) as nat),
-//@ before <<let events = {>>
+//@ before <<let events =>>
         let ghost synth1 = self.synthetic_events@;
         let ghost timeout1 = $WAIT;
 //@ tail
